@@ -169,6 +169,21 @@ theorem C44_inactive_user_never (s : State) (hdr ck : Option String) (uid : Nat)
       subst hu'
       exact h (hact hu)
 
+/-- Stored hashes in every supported format verify exactly their own password: an encoded digest of
+    either variant, decoded by a decoder that knows the variant, matches `q` iff `q` is the hashed
+    password (given collision-free SHA-2). -/
+theorem C44_digest_exact (ds : List Variant) (v : Variant) (p q : String) (hv : v ∈ ds) :
+    phcMatch ds v .none p q = .matched (decide (q = p)) := by
+  simp [phcMatch, hv]
+
+/-- …and no damaged or re-labelled digest ever verifies a foreign password. -/
+theorem C44_digest_only_own (ds : List Variant) (v : Variant) (m : Mangle) (p q : String)
+    (h : phcMatch ds v m p q = .matched true) : q = p := by
+  unfold phcMatch at h
+  cases m <;> simp at h
+  all_goals (split at h <;> simp at h)
+  exact h
+
 -- non-vacuity: a world in which the hypotheses above are met and the interesting answers occur
 example :
     let tr := run init [.cu "u1", .sp 2001 "Password1", .cp 2001 "Password1", .cp 2001 "Password2",
